@@ -43,6 +43,8 @@ def run_model(programs: Sequence[Dict[str, Any]], timeout: int = 1800) -> List[A
 def norm_model_obs(prog: Dict[str, Any], obs: Any) -> Any:
     """rewrite hidden node ids to 0 / drop their requests; callables → '<callable>'"""
     hidden = program_hidden(prog)
+    dsc_iters = {n["e"] for n in prog.get("nodes", []) if n.get("dsclass")}
+    getonly = {c for c, k in prog.get("caches", []) if k == "getonly"}
     if not isinstance(obs, list):
         return obs
     out = []
@@ -55,11 +57,16 @@ def norm_model_obs(prog: Dict[str, Any], obs: Any) -> Any:
         if r[0] == "ok":
             o["r"] = ["ok", canon_model_value(r[1])]
         elif r[0] == "err":
-            o["r"] = ["err", [[c, (0 if s in hidden else s), k] for c, s, k in r[1]]]
+            # (a dataset class is its members' tuple in the model: the hidden `Iter` between the class and a failing
+            # member adds a frame the implementation does not have)
+            o["r"] = ["err", [[c, (0 if s in hidden else s), k] for c, s, k in r[1] if s not in dsc_iters]]
         o["logreq"] = o.get("logreq", 0)
         o["log"] = [l for l in o.get("log", []) if l[1]]
         o["req"] = [q for q in o.get("req", []) if q[1] not in hidden and q[0] != "log"]
         o["calls"] = [[f, canon_model_value(a), canon_model_value(k)] for f, a, k in o.get("calls", [])]
+        if getonly:
+            # a get/set-only backend is a plain store for the model; its inherited `exists` is a `get` on the backend
+            o["cache"] = [c for c in o.get("cache", []) if c[0] not in getonly]
         out.append(o)
     return out
 
@@ -88,7 +95,12 @@ def diff_program(prog: Dict[str, Any], impl: Any, model: Any, facets: Iterable[s
     if isinstance(impl, dict) and "runner_error" in impl:
         return [{"op": -1, "facet": "runner", "impl": impl, "model": None}]
     model = norm_model_obs(prog, model)
+    if any(n.get("dsclass") for n in prog.get("nodes", [])):
+        # instantiating a dataset class asks for the class's keys and reads them again (for its repr): requests and
+        # reads the model's tuple-of-members view does not make
+        facets -= {"req", "reads"}
     out = []
+    getonly_cids = {c for c, k in prog.get("caches", []) if k == "getonly"}
     ops = prog.get("ops", [])
     if not isinstance(impl, list) or not isinstance(model, list) or len(impl) != len(ops) or len(model) != len(ops):
         return [{"op": -1, "facet": "shape", "impl": impl, "model": model}]
@@ -106,6 +118,8 @@ def diff_program(prog: Dict[str, Any], impl: Any, model: Any, facets: Iterable[s
             # EvaluationError and carries on; the model's fuel ends the run) — nothing after it is comparable
             break
         va, vb = facet_views(op, a, "impl"), facet_views(op, b, "model")
+        if getonly_cids:
+            va["cache"] = [c for c in va["cache"] if c[0] not in getonly_cids]
         if op.get("no_recording"):
             # no pass-through handlers installed: the request log was not recorded on the implementation side
             va.pop("req", None)
